@@ -577,6 +577,14 @@ func (r *Run) Do(a Action) *Step {
 		if err := r.B.S.Publish(a.Topic, payload, a.Retain, a.QoS); err != nil {
 			s.Err = err.Error()
 		}
+	case "pidcursor":
+		// move the broker's packet identifier cursor of the client's current connection (verif hook; reaches wrap-around cheaply)
+		if p := r.peerFor(&a); p != nil && p.Link.Client() != nil {
+			s.Peer = p.ID
+			p.Link.Client().VerifSetPacketID(uint32(a.Offset))
+		} else {
+			s.Skipped = true
+		}
 	case "nop":
 	default:
 		panic("hist: unknown action kind " + a.Kind)
@@ -1050,6 +1058,8 @@ func (a Action) String() string {
 		return s
 	case "tick":
 		return fmt.Sprintf("tick %s %+d", a.Tick, a.Offset)
+	case "pidcursor":
+		return fmt.Sprintf("pidcursor %s %d", a.ClientIDStr(), a.Offset)
 	case "inline-sub", "inline-unsub":
 		return fmt.Sprintf("%s id=%d %s", a.Kind, a.InlineID, a.Filters[0].Filter)
 	case "inline-pub":
